@@ -21,6 +21,7 @@ import RTV.Drv.Holiday
 import RTV.Drv.Durations
 import RTV.Drv.TimePeriod
 import RTV.Drv.DtExtract
+import RTV.Drv.DtExtract2
 import RTV.Drv.CultureCfg
 import RTV.Drv.ZhDateTime
 import RTV.Drv.DateParser
@@ -52,6 +53,7 @@ def dispatch (line : String) : String :=
       <|> dispatchDurations op args
       <|> dispatchTimePeriod op args
       <|> dispatchDtExtract op args
+      <|> dispatchDtExtract2 op args
       <|> dispatchCultureCfg op args
       <|> dispatchZhDateTime op args
       <|> dispatchDateParser op args
